@@ -14,9 +14,10 @@ META = {
         "14.c stepping a civil week by n moves its first day by 7n and lands on a valid week index, for every month-start / month-length table, start weekday, valid index and |n| <= 6 (engine B; month-border loop unrolled with the bound proved)",
         "14.d the index of a civil week in its year = (its first day - first day of the week, same start weekday, that contains January 1 of the month's year) / 7, for every year start and length, month inside the year, start weekday and valid index (engine B; search loop unrolled 55 times, bound proved)",
         "14.h a civil or lunar week lists seven days: its first day and the six after it, in order (engine B; LunarDay::next per 02.d); 14.i a civil or lunar month lists exactly its weeks: index 0..count-1 of this month with the chosen start, in order",
+        "14.j week count of a civil / lunar month = ceil((offset of the 1st + length) / 7); 14.k SolarWeek::new / LunarWeek::new accept exactly start <= 6 and index < that count, look up that very month and store index and start (engine B)",
         "14.f the same for lunar weeks (month lengths 29..30); 14.g first day of a lunar week: weekday, position, coverage (engine B); 14.a/B the civil first-day clause again on engine B",
     ],
-    "outside": ["week of a lunar date",
+    "outside": [
                 "week stepping for |n| > 6 (civil) / 8 (lunar)"],
     "assumptions": [
         "SolarDay::get_julian_day = (day count of the month's 1st) + days between - 0.5 (refcal::rel_offset, sums of month lengths; 01.c/01.r/13.L); the day count of the 1st is one concrete representative per weekday (7 jobs): magnitude bound, the weekday function itself is 07.a",
@@ -51,7 +52,7 @@ def engine_b(tier, seed, scr):
     eng, err = engine(scr, "14.c/B/week-next", "14.c")
     if eng is None:
         return err
-    return [weeks.k_week_first_day(eng, False), weeks.k_week_first_day(eng, True), weeks.k_week_index_in_year(eng), lists.k_week_days(eng, False), lists.k_week_days(eng, True), lists.k_month_weeks(eng, False), lists.k_month_weeks(eng, True), weeks.k_week_next(eng, True), weeks.k_week_next(eng, False)]
+    return [weeks.k_week_first_day(eng, False), weeks.k_week_first_day(eng, True), weeks.k_week_index_in_year(eng), weeks.k_week_new(eng, False), weeks.k_week_new(eng, True), weeks.k_week_count(eng, False), weeks.k_week_count(eng, True), lists.k_week_days(eng, False), lists.k_week_days(eng, True), lists.k_month_weeks(eng, False), lists.k_month_weeks(eng, True), weeks.k_week_next(eng, True), weeks.k_week_next(eng, False)]
 
 def fallback_candidates(j):
     """concrete inputs for the native confirmation of a solver-flagged obligation (the body's draw order)"""
